@@ -143,7 +143,13 @@ impl TypeVarData {
         second: InterfaceConstraints,
     ) -> InterfaceConstraints {
         for (iface_constraint, nodes) in second {
-            first.entry(iface_constraint).or_default().extend(nodes)
+            // the two sides usually share most of their nodes: appending them again doubles the list at every merge
+            let merged = first.entry(iface_constraint).or_default();
+            for node in nodes {
+                if !merged.contains(&node) {
+                    merged.push(node);
+                }
+            }
         }
         first
     }
